@@ -298,6 +298,16 @@ impl KnownWord {
     /// Computes the signed right shift of `self` by `rhs`.
     #[must_use]
     pub fn sar(self, rhs: Self) -> Self {
+        // Shifting by the word size or more leaves only copies of the sign bit
+        if rhs.value_le() >= U256::new(256) {
+            let fill = if self.value_le_signed() < I256::ZERO {
+                I256::MINUS_ONE
+            } else {
+                I256::ZERO
+            };
+            return KnownWord::from_le_signed(fill);
+        }
+
         // We need the value to be signed to make it an arithmetic shift
         let result = self.value_le_signed() >> rhs.value_le();
 
@@ -414,6 +424,10 @@ impl std::ops::Shl<KnownWord> for KnownWord {
 
     /// Computes the left shift of `self` by `rhs`.
     fn shl(self, rhs: KnownWord) -> Self::Output {
+        // Shifting by the word size or more shifts every bit out
+        if rhs.value_le() >= U256::new(256) {
+            return KnownWord::zero();
+        }
         KnownWord::from_le(self.value_le() << rhs.value_le())
     }
 }
@@ -423,6 +437,10 @@ impl std::ops::Shr<KnownWord> for KnownWord {
 
     /// Computes the unsigned right shift of `self` by `rhs`.
     fn shr(self, rhs: KnownWord) -> Self::Output {
+        // Shifting by the word size or more shifts every bit out
+        if rhs.value_le() >= U256::new(256) {
+            return KnownWord::zero();
+        }
         KnownWord::from_le(self.value_le() >> rhs.value_le())
     }
 }
